@@ -82,6 +82,9 @@ class Run:
         self.quiet = True
         self.store = SqliteWorkflowStore(self.cs, create_tables=False)
         self.queue = SqliteQueue(self.cs)
+        from .programs import register_builder
+
+        register_builder(self.prog)
         reg = TaskRegistry()
         for sd in self.prog["stages"]:
             for td in sd["tasks"]:
